@@ -247,6 +247,9 @@ pub struct WorkerSummary {
     pub histories: u64,
     #[serde(default)]
     pub fault_points: u64,
+    /// executions per generator profile
+    #[serde(default)]
+    pub per_profile: BTreeMap<String, u64>,
 }
 
 #[derive(Serialize, Deserialize, Default)]
@@ -355,6 +358,7 @@ pub fn worker(prop_id: &str, tier: Tier, root: u64, from: u64, to: u64, outdir: 
             None => exec(&scn, &ExecOpts::default()),
         };
         sum.runs += 1;
+        *sum.per_profile.entry(profile.to_string()).or_insert(0) += 1;
         sum.decisions += out.summary.decisions.len() as u64;
         sum.switches += out.summary.switches;
         sum.sim_ns += out.sim_ns as i128;
@@ -597,6 +601,9 @@ pub fn check(args: &CheckArgs) -> i32 {
             Some(ws) => {
                 total.runs += ws.runs;
                 total.histories += ws.histories;
+                for (k, v) in ws.per_profile {
+                    *total.per_profile.entry(k).or_insert(0) += v;
+                }
                 total.fault_points += ws.fault_points;
                 total.violations += ws.violations;
                 total.decisions += ws.decisions;
@@ -707,6 +714,7 @@ pub fn check(args: &CheckArgs) -> i32 {
             "fault_kinds_injected": total.faults,
             "probes": total.probes,
             "workers": w,
+            "executions_per_profile": total.per_profile,
             "histories_enumerated": total.histories,
             "fault_and_crash_points_enumerated": total.fault_points,
             "components_real": cfg.real,
